@@ -5,6 +5,7 @@ pub mod crash;
 #[cfg(all(feature = "format", feature = "catalogue"))]
 pub mod gen;
 pub mod floatfam;
+pub mod optfam;
 pub mod fmtcat;
 pub mod intglue;
 pub mod valfam;
